@@ -49,3 +49,25 @@ Proof.
   destruct (viterbi_Qc_optimal m Pi Tr Tf smap e n HPi HTr HTf He Hm Hn) as [H1 H2].
   split; [exact H1|]. intros q [Hl Hb]. exact (H2 q Hl Hb).
 Qed.
+
+(* ---- F-C15-TF-SELFLOOP: the final-state restriction is not enforced for a
+        state without transitions into the final states (the masked row is all
+        zero and Normalize makes it a self loop).  Identity transitions, final
+        states {1}: Tf(0,0) = 1, the Viterbi path is [0;0] and has positive
+        weight although state 0 is not final. ---- *)
+Definition w_tr : list (list Qc) := make_tr OpsQc [[1%Qc; 0%Qc]; [0%Qc; 1%Qc]].
+Definition w_tf : list (list Qc) := make_tf OpsQc w_tr [1%Z].
+Definition w_pi : list Qc := make_pi OpsQc [Q2Qc (1 # 2); Q2Qc (1 # 2)] [].
+Definition w_f {X} (d : X) (l : list X) : nat -> X := fun i => nth i l d.
+Definition w_f2 {X} (d : X) (l : list (list X)) : nat -> nat -> X := fun i j => nth j (nth i l []) d.
+Definition w_e (c k : nat) : Qc := if c =? 0 then Q2Qc (1 # 2) else Q2Qc (1 # 4).
+Definition w_path : list nat :=
+  viterbi VOpsQc 2 (w_f 0%Qc w_pi) (w_f2 0%Qc w_tr) (w_f2 0%Qc w_tf) (fun i => i) w_e 2.
+
+Lemma final_restriction_witness :
+  zmem 0 [1%Z] = false /\ w_f2 0%Qc w_tf 0 0 = 1%Qc /\ w_path = [0; 0] /\
+  (0 < weight OpsQc (w_f 0%Qc w_pi) (w_f2 0%Qc w_tr) (w_f2 0%Qc w_tf) (fun i => i) w_e 2 w_path)%Qc.
+Proof.
+  split; [reflexivity|]. split; [apply Qc_is_canon; vm_compute; reflexivity|].
+  split; [vm_compute; reflexivity|]. vm_compute. reflexivity.
+Qed.
